@@ -14,5 +14,5 @@ try:
         if r.returncode not in (0, 1):
             print(r.stdout[-2000:], r.stderr[-3000:])
 finally:
-    subprocess.run(['git', '-C', '/repo', 'checkout', '--', '.'])
+    subprocess.run(['git', '-C', '/repo', 'checkout', '--', '.']); subprocess.run(['git', '-C', '/repo', 'clean', '-fdq', '--', 'packages'])
     subprocess.run(['git', '-C', '/repo', 'status', '--short'])
